@@ -168,7 +168,7 @@ Ltac dm := match goal with
   | |- context [match ?x with _ => _ end] =>
       lazymatch x with context [match _ with _ => _ end] => fail | _ => destruct x eqn:? end
   end.
-Ltac start s o := destruct s as [a sb rc sq pe q lk]; destruct o; unf; cbn.
+Ltac start s o := destruct s as [a sb rc sq pe q lk z]; destruct o; unf; cbn.
 
 Lemma step_wf : forall c s o, wfS s -> wfS (nxt c s o).
 Proof.
@@ -176,8 +176,9 @@ Proof.
   all: repeat (dm; cbn); repeat split; cbn; auto using wft_nil.
   all: try (apply wft_tset; auto; intros r0 E; try discriminate; injection E as <-; apply wfr_norm).
   all: try (apply Forall_snoc; auto; cbn; auto using wfr_norm).
-  all: try (eapply Forall_tl; eauto).
-  all: try (eapply Forall_hd; eauto).
+  all: try solve [repeat constructor; cbn; auto].
+  all: try solve [eapply Forall_tl; eauto].
+  all: try solve [eapply Forall_hd; eauto].
 Qed.
 
 Lemma snext_abs : forall c s o, snext (abs s) o (obs c s o) = abs (nxt c s o).
@@ -302,7 +303,7 @@ Proof. intros H j. unfold lookup. rewrite nth_fsync. now apply nth_snapshot_wf. 
 Lemma step_weak : forall c s o, ~ In 1304 (mks c s o) -> weak s -> weak (nxt c s o).
 Proof.
   intros c s o. unfold mks, nxt, weak, step.
-  destruct s as [a sb rc sq pe q lk]. destruct o; unf; cbn.
+  destruct s as [a sb rc sq pe q lk z]. destruct o; unf; cbn.
   - (* Put *) destruct (len pe <? c_pcap c); cbn; [|tauto]. intros _ (HP & HC).
     split; auto. eapply formp_snoc; eauto using upd_put.
   - (* Del *) destruct (len pe <? c_pcap c); cbn; [|tauto]. intros _ (HP & HC).
@@ -313,9 +314,11 @@ Proof.
     destruct (len q <? c_ccap c); cbn; split; auto; congruence.
   - (* FullSync *) intros _ (HP & HC). destruct lk; cbn; auto; split; auto; intros _; apply HC; congruence.
   - (* SyncFail *) intros _ (HP & HC). destruct lk; cbn; auto; split; auto; intros _; apply HC; congruence.
-  - (* Attach *) intros _ (HP & HC). destruct lk; cbn; auto.
+  - (* Attach *) intros _ (HP & HC). destruct lk; cbn; auto. split; auto. congruence.
   - (* Deliver *) intros _ (HP & HC). destruct lk; cbn; auto. destruct q; cbn; auto. split; auto. congruence.
   - (* Disconnect *) intros _ (HP & HC). destruct lk; cbn; auto; split; auto.
+  - (* Drop *) intros _ (HP & HC). destruct lk; cbn; auto; split; auto.
+  - (* Reap *) intros _ (HP & HC). destruct z; cbn; auto.
   - (* Restart *) intros _ _. split; auto using formp_nil.
 Qed.
 
@@ -323,7 +326,7 @@ Qed.
 Lemma fullsync_inv : forall c s, wfS s -> lnk s <> LStreaming -> weak s -> inv (nxt c s FullSync).
 Proof.
   intros c s (HA & _) HL (HP & HC). unfold nxt, step, inv, weak.
-  destruct s as [a sb rc sq pe q lk]. cbn in *. specialize (HC HL). subst q.
+  destruct s as [a sb rc sq pe q lk z]. cbn in *. specialize (HC HL). subst q.
   destruct lk; cbn; try congruence.
   all: split; [split; auto|]; intros _; cbn; apply formq_of_formp; auto; apply fsync_lookup; auto.
 Qed.
@@ -340,7 +343,7 @@ Proof.
        1,2: apply fullsync_inv; auto; congruence.
        split; auto. unfold nxt, step. cbn. rewrite EL. cbn. rewrite EL. auto. }
   all: split; auto; clear HK'; revert EM HW HK HQ; unfold mks, nxt, weak, wfS, step;
-       destruct s as [a sb rc sq pe q lk]; unf; cbn.
+       destruct s as [a sb rc sq pe q lk z]; unf; cbn.
   - (* Put *) destruct (len pe <? c_pcap c); cbn; [|discriminate]. intros _ _ _ HQ HL.
     rewrite app_assoc. eapply formq_snoc; eauto using upd_put.
   - (* Del *) destruct (len pe <? c_pcap c); cbn; [|discriminate]. intros _ _ _ HQ HL.
@@ -352,23 +355,26 @@ Proof.
   - (* Heartbeat *) destruct lk; cbn; auto.
     destruct (len q <? c_ccap c); cbn; auto. intros _ _ _ HQ HL j. rewrite last_eff_hb. apply HQ; auto.
   - (* SyncFail *) destruct lk; cbn; auto; congruence.
-  - (* Attach *) destruct lk; cbn; auto. intros _ _ (_ & HC) HQ _. rewrite HC in HQ by congruence. apply HQ. congruence.
+  - (* Attach *) destruct lk; cbn; auto. intros _ _ (_ & HC) HQ _. rewrite HC in HQ by congruence.
+    assert (HL : LSynced <> LDown) by discriminate. intros j. specialize (HQ HL j). cbn in *. destruct (last_eff j pe); auto.
   - (* Deliver *) destruct lk; cbn; auto. destruct q as [|m tl]; cbn; auto. intros _ (_ & _ & HF) _ HQ _.
     rewrite wire_msg_wf by (eapply Forall_hd; eauto). apply formq_deliver. apply HQ. congruence.
   - (* Disconnect *) destruct lk; cbn; auto; congruence.
+  - (* Drop *) destruct lk; cbn; auto; congruence.
+  - (* Reap *) destruct z; cbn; auto.
 Qed.
 
 Lemma len_zero {A} (l : list A) : len l = 0 -> l = [].
 Proof. destruct l; cbn; auto. unfold len. cbn. lia. Qed.
 
-Lemma v2_of_inv s r : inv s -> v2 (observe s r) = false.
+Lemma v2_of_inv s r : inv s -> v2 (nilb (cq s)) (observe s r) = false.
 Proof.
   intros ((HP & HC) & HQ). unfold v2, observe. cbn. destruct (lnk s) eqn:EL; auto.
-  destruct (len (pend s) =? 0) eqn:E1; auto. destruct (len (cq s) =? 0) eqn:E2; auto. cbn.
-  apply N.eqb_eq, len_zero in E1. apply N.eqb_eq, len_zero in E2.
+  destruct (len (pend s) =? 0) eqn:E1; auto. destruct (cq s) as [|m0 q0] eqn:E2; auto. cbn.
+  apply N.eqb_eq, len_zero in E1.
   apply negb_false_iff, teqb_spec. intros i.
   assert (HL : LStreaming <> LDown) by discriminate. specialize (HQ HL (N.of_nat i)).
-  rewrite E1, E2 in HQ. cbn in HQ. unfold lookup in HQ. now rewrite Nat2N.id in HQ.
+  rewrite E1 in HQ. cbn in HQ. unfold lookup in HQ. now rewrite Nat2N.id in HQ.
 Qed.
 
 (* ---------- the monitor over whole runs ---------- *)
@@ -378,7 +384,8 @@ Proof. destruct b; cbn; auto. Qed.
 Lemma filter_only k ss o ob :
   In k [0; 1; 2; 3; 9] ->
   filter (only k) (viol ss o ob) =
-  flag (match k with 0 => v0 o ob | 1 => v1 ss o ob | 2 => v2 ob | 3 => v3 ss ob | _ => v9 o ob end) k.
+  flag (match k with 0 => v0 o ob | 1 => v1 ss o ob | 2 => v2 (nilb (s_q (snext ss o ob))) ob
+        | 3 => v3 ss ob | _ => v9 o ob end) k.
 Proof.
   intros Hk. unfold viol. rewrite !filter_app, !filter_flag. unfold only.
   cbn in Hk. repeat (destruct Hk as [<- | Hk]; [cbn; rewrite ?andb_false_r, ?andb_true_r; cbn;
@@ -443,7 +450,8 @@ Proof.
   apply (monitor_gen (only 2) g_quiet winv); auto using winv_init, lossless_run.
   intros s o (HW & HI) HG. unfold g_quiet in HG. destruct (mks c s o) eqn:EM; [|discriminate].
   pose proof (step_inv c s o EM HW HI) as HI'. split; [split; auto using step_wf|].
-  rewrite filter_only by (cbn; tauto). destruct (obs_observe c s o) as (r & ->). now rewrite v2_of_inv.
+  rewrite filter_only by (cbn; tauto). rewrite snext_abs. cbn [abs s_q].
+  destruct (obs_observe c s o) as (r & ->). now rewrite v2_of_inv.
 Qed.
 
 Theorem mon_no_change_lost_partial : forall c ops,
@@ -463,7 +471,7 @@ Proof.
   intros s o (HW & HI) HG. unfold g_quiet in HG. destruct (mks c s o) eqn:EM; [|discriminate].
   pose proof (step_inv c s o EM HW HI) as HI'. split; [split; auto using step_wf|].
   assert (E : forall l, filter (fun _ : N => true) l = l) by (induction l; cbn; congruence).
-  rewrite E. unfold viol. rewrite step_v0, step_v1, step_v3, step_v9 by auto.
+  rewrite E. unfold viol. rewrite step_v0, step_v1, step_v3, step_v9 by auto. rewrite snext_abs. cbn [abs s_q].
   destruct (obs_observe c s o) as (r & ->). rewrite v2_of_inv by auto. reflexivity.
 Qed.
 
@@ -643,19 +651,19 @@ Lemma len_app1 {A} (l : list A) x : len (l ++ [x]) = len l + 1.
 Proof. unfold len. rewrite app_length. cbn. lia. Qed.
 Lemma len_tl_le {A} (x : A) l n : len (x :: l) <= n -> len l <= n.
 Proof. unfold len. cbn. lia. Qed.
-Lemma step_bounded : forall c s o, bounded c s -> bounded c (nxt c s o).
+Lemma step_bounded : forall c s o, 1 <= c_ccap c -> bounded c s -> bounded c (nxt c s o).
 Proof.
-  intros c s o. unfold nxt, step, bounded. start s o; intros (HP & HQ).
+  intros c s o H1. unfold nxt, step, bounded. start s o; intros (HP & HQ).
   all: repeat (dm; cbn); split; auto; rewrite ?len_app1; try lia.
   all: try (match goal with H : (_ <? _) = true |- _ => apply N.ltb_lt in H; lia end).
   all: try (eapply len_tl_le; eauto).
   all: try (unfold len; cbn; lia).
 Qed.
-Theorem queues_bounded : forall c ops, bounded c (run c init ops).
+Theorem queues_bounded : forall c ops, 1 <= c_ccap c -> bounded c (run c init ops).
 Proof.
-  intros c ops. assert (H : bounded c init) by (unfold bounded, len; cbn; lia).
+  intros c ops H1. assert (H : bounded c init) by (unfold bounded, len; cbn; lia).
   revert H. generalize init. induction ops as [|o tl IH]; intros s H; auto.
-  cbn. apply IH. apply (step_bounded c s o H).
+  cbn. apply IH. apply (step_bounded c s o H1 H).
 Qed.
 
 Lemma monitor_is_check m c : forall ops s ss i,
@@ -675,7 +683,7 @@ Definition rA : rec := repeat 1 nf.          (* every field non-zero *)
 Definition rB : rec := repeat 2 nf.
 Definition rH : rec := norm [0; 2; 0; 2; 0; 2; 0; 2; 0; 2; 0; 2; 0; 2; 0; 2; 0; 2; 0; 2].  (* every other field back to zero *)
 (* a change broadcast between the full sync and the stream attach is lost *)
-Definition w_gap : list op := [FullSync; Put 0 rA; Broadcast; Attach].
+Definition w_gap : list op := [FullSync; Put 0 rA; Broadcast; Attach; Deliver].
 (* 102 changes broadcast into a stream nobody reads: the last one is dropped *)
 Definition w_overflow : list op :=
   [FullSync; Attach] ++ repeat (Put 0 rA) 102 ++ repeat Broadcast 102.
@@ -684,7 +692,7 @@ Definition w_overflow_diverge : list op :=
 (* a push refused by the full pending queue (capacity 1 here; 1000 in the code: corpus k13c2) while the
    standby is away: the full sync that follows does not repair it, the older queued message wins *)
 Definition w_push_refused : list op :=
-  [Put 0 rA; Put 0 rH; FullSync; Attach; Broadcast; Deliver].
+  [Put 0 rA; Put 0 rH; FullSync; Attach; Deliver; Broadcast; Deliver].
 
 Theorem quiescent_convergence_refuted : exists c ops, monitor (only 2) c init sinit ops = Some 2.
 Proof. exists cfg_real, w_gap. vm_compute. reflexivity. Qed.
@@ -699,8 +707,8 @@ Proof. exists cfg_real, w_overflow. vm_compute. reflexivity. Qed.
 (* non-vacuity: a lossless history with adds, an update resetting half of the fields, deletes while
    away, a failed full sync, reconnection, that ends quiescent with a non-empty table *)
 Definition h_ok : list op :=
-  [Put 0 rA; Put 1 rA; Broadcast; FullSync; Attach; Broadcast; Deliver; Put 0 rH; Heartbeat; Broadcast; Deliver;
-   Deliver; Disconnect; Del 1; Put 2 rB; Broadcast; Broadcast; SyncFail; FullSync; Attach; Put 3 rA; Del 3; Broadcast;
+  [Put 0 rA; Put 1 rA; Broadcast; FullSync; Attach; Deliver; Broadcast; Deliver; Put 0 rH; Heartbeat; Broadcast; Deliver;
+   Deliver; Drop; Del 1; Put 2 rB; Broadcast; Broadcast; SyncFail; FullSync; Attach; Deliver; Put 3 rA; Reap; Del 3; Broadcast;
    Broadcast; Deliver; Deliver].
 Lemma h_ok_facts :
   lossless cfg_real init h_ok = true /\ lnk (run cfg_real init h_ok) = LStreaming /\
@@ -712,8 +720,8 @@ Proof. vm_compute. repeat split; reflexivity. Qed.
    then the active restarts and the standby reconnects) and is healed: not lossless, yet quiescent and
    equal at the end, with a non-empty table *)
 Definition h_healed : list op :=
-  w_gap ++ [Put 1 rB; Broadcast; Deliver; Disconnect; Put 1 rH; Broadcast; FullSync; Attach;
-            Restart; Put 2 rA; Broadcast; FullSync; Attach; Put 2 rH; Broadcast; Deliver].
+  w_gap ++ [Put 1 rB; Broadcast; Deliver; Disconnect; Put 1 rH; Broadcast; FullSync; Attach; Deliver;
+            Restart; Put 2 rA; Broadcast; FullSync; Attach; Deliver; Put 2 rH; Broadcast; Deliver].
 Lemma h_healed_facts :
   lossless cfg_real init h_healed = false /\ healed cfg_real init h_healed = true /\
   lnk (run cfg_real init h_healed) = LStreaming /\
